@@ -169,6 +169,24 @@ func c12(x *mon.Ctx) {
 			w.Extra[world.PckCrlURL("processor")] = world.Resp{H: map[string][]string{world.HdrPckCrl: {world.IssuerChain(proc, w.PKI.Root)}}, B: world.MkCRL(proc, world.Epoch.Add(-world.Day), world.Epoch.Add(30*world.Day), nil)}
 			label = "processor-ca"
 		}
+		if i%10 == 3 || i%10 == 8 {
+			// the leaf names one of Intel's two PCK CAs as its issuer while the quote ships the OTHER CA's certificate (never
+			// accepted): the PCK CRL that is asked for is the one of the CA that issued the LEAF — its issuer name says which
+			w = richHonest(r)
+			proc := world.Issue(world.InterTemplate(world.CNProcessor, world.Far), w.PKI.Root, world.NewKey())
+			for _, ca := range []string{"platform", "processor"} {
+				iss := map[string]*world.Cert{"platform": w.PKI.Inter, "processor": proc}[ca]
+				w.Extra[world.PckCrlURL(ca)] = world.Resp{H: map[string][]string{world.HdrPckCrl: {world.IssuerChain(iss, w.PKI.Root)}}, B: world.MkCRL(iss, world.Epoch.Add(-world.Day), world.Epoch.Add(30*world.Day), nil)}
+			}
+			if i%10 == 3 { // leaf issued by the Processor CA, chain carries the Platform CA certificate
+				leaf := world.Issue(world.LeafTemplate(world.Far, world.SgxExtension(w.P)), proc, w.PKI.Leaf.Key)
+				w.Q.Chain = world.ChainPEM(false, leaf, w.PKI.Inter, w.PKI.Root)
+				label = "leaf-of-processor-ca-with-platform-ca-certificate"
+			} else { // leaf issued by the Platform CA, chain carries the Processor CA certificate
+				w.Q.Chain = world.ChainPEM(false, w.PKI.Leaf, proc, w.PKI.Root)
+				label = "leaf-of-platform-ca-with-processor-ca-certificate"
+			}
+		}
 		var acc [4]bool
 		for k, o := range combos {
 			c := w.Case(world.LCrl, "corpus/"+strings.SplitN(label, "/", 2)[0], fmt.Sprintf("w%d:%s", i, label))
@@ -186,10 +204,14 @@ func c12(x *mon.Ctx) {
 			if i == 0 && k == 0 {
 				x.Sample(map[string]any{"world": label, "options": o.name, "accepted": out.Accepted, "fetched": out.URLs})
 			}
-			if label == "processor-ca" && o.name == "coll+crl" {
+			if (label == "processor-ca" || strings.HasPrefix(label, "leaf-of-")) && o.name == "coll+crl" {
+				want := "processor"
+				if label == "leaf-of-platform-ca-with-processor-ca-certificate" {
+					want = "platform"
+				}
 				seen := false
 				for _, u := range out.URLs {
-					if u == world.PckCrlURL("processor") {
+					if u == world.PckCrlURL(want) {
 						seen = true
 					}
 				}
@@ -207,7 +229,7 @@ func c12(x *mon.Ctx) {
 	})
 	x.Require("monotonicity", nw/8, nw/8, nw)
 	x.Require("fetch-discipline/base", nw/8, 1, nw)
-	x.Require("processor-ca-crl-request", 0, 0, nw/10-1)
+	x.Require("processor-ca-crl-request", 0, 0, 3*(nw/10)-2)
 
 	// ---- (b') two PCK certificates of ONE issuer carrying ONE serial number but different platforms (FMSPC, SVNs), verified one
 	//      after the other: the second verdict and the FMSPC in its TCB-Info request belong to the second certificate
